@@ -3,6 +3,7 @@ import Driver.C19
 import Driver.C12
 import Driver.C13
 import Driver.C11
+import Driver.C01
 import Driver.C10
 import Driver.C17
 
@@ -12,6 +13,7 @@ def dispatch (line : String) : String :=
   | "C12" :: r => Driver.C12.handle r
   | "C13" :: r => Driver.C13.handle r
   | "C11" :: r => Driver.C11.handle r
+  | "C01" :: r => Driver.C01.handle r
   | "C10" :: r => Driver.C10.handle r
   | "C17" :: r => Driver.C17.handle r
   | _ => "bad-request"
